@@ -688,7 +688,7 @@ theorem applyAll_dimOnly {s : Subst} (hs : s.dimOnly = true) {cs cs' : List Cons
         | inr hx => exact ih (fun y hy => hc y (by simp [hy])) hr x hx
 
 theorem extend_dimOnly {s1 : Subst} (hs1 : s1.dimOnly = true) {σ σ' : Subst} (hσ : σ.dimOnly = true)
-    (h : σ.extend s1 = some σ') : σ'.dimOnly = true := by
+    (h : σ.extend s1 = .ok σ') : σ'.dimOnly = true := by
   induction σ generalizing σ' with
   | nil => simp only [Subst.extend] at h; injection h with h; subst h; exact hs1
   | cons q rest ih =>
@@ -708,7 +708,7 @@ theorem extend_dimOnly {s1 : Subst} (hs1 : s1.dimOnly = true) {σ σ' : Subst} (
 
 /-! ## the solver loop -/
 
-theorem extend_suffix {σ s1 σ' : Subst} (h : σ.extend s1 = some σ') : ∀ p ∈ s1, p ∈ σ' := by
+theorem extend_suffix {σ s1 σ' : Subst} (h : σ.extend s1 = .ok σ') : ∀ p ∈ s1, p ∈ σ' := by
   induction σ generalizing σ' with
   | nil => simp only [Subst.extend] at h; injection h with h; subst h; exact fun _ hp => hp
   | cons q rest ih =>
@@ -725,7 +725,7 @@ theorem extend_suffix {σ s1 σ' : Subst} (h : σ.extend s1 = some σ') : ∀ p 
 
 theorem extend_ok (θ : Val) {s1 : Subst} (he : Ext θ s1) (hs1 : s1.dimOnly = true) (σ : Subst)
     (hσ : σ.dimOnly = true) :
-    ∃ σ', σ.extend s1 = some σ' ∧ σ'.dimOnly = true ∧ (Ext θ σ' ↔ Ext θ σ) := by
+    ∃ σ', σ.extend s1 = .ok σ' ∧ σ'.dimOnly = true ∧ (Ext θ σ' ↔ Ext θ σ) := by
   induction σ with
   | nil =>
     refine ⟨s1, rfl, hs1, ?_⟩
@@ -745,7 +745,7 @@ theorem extend_ok (θ : Val) {s1 : Subst} (he : Ext θ s1) (hs1 : s1.dimOnly = t
       · intro h; exact ⟨h.1, hre.mpr h.2⟩
 
 theorem extend_ext_of (θ : Val) {s1 : Subst} (he : Ext θ s1) (hs1 : s1.dimOnly = true) {σ σ' : Subst}
-    (hσ : σ.dimOnly = true) (h : σ.extend s1 = some σ') (hext : Ext θ σ) : Ext θ σ' := by
+    (hσ : σ.dimOnly = true) (h : σ.extend s1 = .ok σ') (hext : Ext θ σ) : Ext θ σ' := by
   induction σ generalizing σ' with
   | nil => simp only [Subst.extend] at h; injection h with h; subst h; exact he
   | cons q rest ih =>
@@ -838,8 +838,8 @@ theorem solveLoop_step {fuel : Nat} {cs : List Constraint} {σ : Subst} {r : Sol
     (∃ j s1 new, findFirst cs 0 = .at j s1 new ∧
       ((∃ t, applyAll s1 (cs.eraseIdx j ++ new) = .error t ∧ r = .substError t) ∨
        (∃ cs', applyAll s1 (cs.eraseIdx j ++ new) = .ok cs' ∧
-          ((σ.extend s1 = none ∧ r = .panic) ∨
-           (∃ σ', σ.extend s1 = some σ' ∧ r = solveLoop fuel cs' σ'))))) := by
+          ((∃ t, σ.extend s1 = .error t ∧ r = .substError t) ∨
+           (∃ σ', σ.extend s1 = .ok σ' ∧ r = solveLoop fuel cs' σ'))))) := by
   simp only [solveLoop] at h
   split at h
   · exact Or.inl ⟨by assumption, h.symm⟩
@@ -852,7 +852,8 @@ theorem solveLoop_step {fuel : Nat} {cs : List Constraint} {σ : Subst} {r : Sol
     · rename_i cs' hcs
       refine Or.inr ⟨cs', hcs, ?_⟩
       split at h
-      · exact Or.inl ⟨by assumption, h.symm⟩
+      · rename_i t ht
+        exact Or.inl ⟨t, ht, h.symm⟩
       · rename_i σ' hσ
         exact Or.inr ⟨σ', hσ, h.symm⟩
 
